@@ -93,12 +93,13 @@ CLAIMS = {
              "every registered user; a nick held by another user gives exactly 433 and the identical state; the own nick is a no-op; an invalid nick is answered by the parser and never reaches the handler.",
         design_ref="5 (C15)"),
     "C19": dict(
-        technique="Coq proof (counter clauses of the global invariant; connection-limit invariant over all histories) + statistics oracle (recount from the dump, high-water mark from the history) and a connection-limit sweep on the real server",
+        technique="Coq proof (counter clauses of the global invariant; connection-limit invariant over all histories; high-water theorem by a population/mark frame through all 41 commands, teardown and KILL delivery) + statistics oracle (recount from the dump, high-water mark from the history) and a connection-limit sweep on the real server",
         text="Theorems (props/C19.v): in every reachable world the invisible and operator counters equal the true counts and the connection counter equals the number of live connections; LUSERS "
              "therefore prints the actual numbers of users, invisible users, operators and channels; with max_connections = m never more than m connections are live; a closed connection is "
-             "no longer live and the counter stays exact. The high-water mark and the ISON/USERHOST texts are checked per run by the oracle (L2).",
+             "no longer live and the counter stays exact; the maximum reported by LUSERS is the true high-water mark: after every step it equals the maximum of its previous value and the current "
+             "population, and it dominates the population in every reachable world (C19_high_water_step, C19_high_water_dominates). The ISON/USERHOST texts are checked per run by the oracle (L2).",
         design_ref="5 (C19)",
-        note="Partial at proof level: max_users as true high-water mark and ISON/USERHOST are checked on traces, not proved."),
+        note="Partial at proof level: the ISON/USERHOST texts are checked on traces, not proved."),
     "C13": dict(
         technique="Coq proof (tokenizer inverse of the relay serialiser by induction over blank-led tokens; well-formedness of every tokenised message; per-verb classification by case analysis over 41 verbs and arities) + grammar oracle, re-parse oracle, CRLF oracle and segmentation pairs on the real code",
         text="Theorems (props/C13.v): every message out of the tokenizer has a non-empty, blank-free command and middle parameters not starting with ':'; serialising such a message with a source "
